@@ -46,7 +46,7 @@ def run(tier, seed):
         "base64.b64decode is an unknown function of the text with b64decode('') == b''; int() of the size attribute unknown function",
         "Buffer.process through its C11 contract in the client receive loop",
     ]
-    chk.standin_on_out_of_reach("native reference interpreter", "client.step", {"seed": seed, "n": 300 if tier == "quick" else 3000},
+    chk.standin_on_out_of_reach("native reference interpreter", "client.step", {"seed": seed, "n": 300 if tier == "quick" else 3000}, always=True,
                                 bound_text="random streams (1..8 messages) over devices {A,B} x properties {P,Q} x elements {x,y,z} x 5 kinds incl. redefinition, kind mismatch, "
                                            "unknown targets, empty/absent BLOB payloads, whole-device deletion; real client vs independent reference interpreter")
     chk.min_obligations = 1500
